@@ -43,6 +43,33 @@ let () =
                 (bytes_of k, if v = "!" then None else Some (z_of_string v))) (String.split_on_char ',' l)) (String.split_on_char ';' lines) in
             let observe = List.map bytes_of q_observe in
             "Q " ^ String.concat "," (List.map (fun o -> match o with None -> "-" | Some v -> string_of_z v) (run_cfi_rules written cal observe))
+          | "A" :: rest ->
+            (* A nk {susp outc}*nk nt {tree}*nt ns {t}*ns ; tree = d<v> | k<key> <ok subtree> <err subtree> *)
+            let toks = ref rest in
+            let next () = match !toks with t :: r -> toks := r; t | [] -> failwith "A: short case" in
+            let nat_of_int i = a_nat_of_z (z_of_int i) in
+            let int_of_nat n = int_of_z (a_z_of_nat n) in
+            let outcome_of_int = function 0 -> OOk | 1 -> ONotFound | 2 -> OMissing | 3 -> OLoad | _ -> OParse in
+            let nk = int_of_string (next ()) in
+            let scripts = List.init nk (fun _ -> let su = int_of_string (next ()) in let oc = int_of_string (next ()) in
+                                                  (nat_of_int su, outcome_of_int oc)) in
+            let rec tree () =
+              let t = next () in
+              let v = int_of_string (String.sub t 1 (String.length t - 1)) in
+              if t.[0] = 'd' then a_done (nat_of_int v)
+              else (let ok = tree () in let err = tree () in a_ask (nat_of_int v) ok err) in
+            let nt = int_of_string (next ()) in
+            let trees = List.init nt (fun _ -> tree ()) in
+            let ns = int_of_string (next ()) in
+            let sched = List.init ns (fun _ -> nat_of_int (int_of_string (next ()))) in
+            let ((res, logs), (calls, (stats, (req, proc)))) = run_adaptive scripts trees sched (nat_of_int 200) in
+            let join sep f l = if l = [] then "-" else String.concat sep (List.map f l) in
+            Printf.sprintf "A %s;%s;%s;%s;%d/%d"
+              (join "," (fun r -> match r with None -> "?" | Some v -> string_of_int (int_of_nat v)) res)
+              (join "|" (fun l -> join "." (fun (k, o) -> Printf.sprintf "%d:%d" (int_of_nat k) (if o = OOk then 1 else 0)) l) logs)
+              (join "." (fun k -> string_of_int (int_of_nat k)) calls)
+              (join "," (fun st -> match st with None -> "-" | Some o -> (if stat_loaded o then "L" else "l") ^ (if stat_corrupt o then "C" else "c")) stats)
+              (int_of_nat req) (int_of_nat proc)
           | _ -> "?" in
         print_endline out
       end
